@@ -183,16 +183,19 @@ Theorem raft_import_failure_leaves_empty keep ord ls (d : dir snapshot) : import
 Proof. exact (raft_import_failure keep ord ls d). Qed.
 Print Assumptions raft_import_failure_leaves_empty.
 
-(* crdt state manager: additionally the empty pinset does not survive the trip (Commit of an empty batch crashes) *)
-Theorem crdt_export_import_id_refuted :
-  exists ord s0, order_oracle ord /\ crdt_import (export ord []) s0 = ([], ImpCrash).
-Proof. exists (fun x => x), []. split; [intros s; apply Permutation_refl|reflexivity]. Qed.
-Print Assumptions crdt_export_import_id_refuted.
-
-Theorem crdt_export_import_id_partial ord s s0 : order_oracle ord -> keys_nodup s -> no_origins s -> s <> [] ->
+(* crdt state manager: for EVERY pinset without origins (the guard of S19, refuted above by export_import_id_refuted) and every
+   listing order - the empty pinset included: since fix-S33 an import that added nothing does not commit an empty batch *)
+Theorem crdt_export_import_id_partial ord s s0 : order_oracle ord -> keys_nodup s -> no_origins s ->
   exists s', crdt_import (export ord s) s0 = (s', ImpOk) /\ same_pinset s' s.
 Proof. exact (crdt_export_import ord s s0). Qed.
 Print Assumptions crdt_export_import_id_partial.
+
+(* regression (S33, fixed): the export of the empty pinset used to crash the crdt import after the Clean; it now succeeds and
+   leaves the empty pinset, whatever the destination held. The input is in corpus/C14. *)
+Example crdt_import_empty_regression :
+  crdt_import_before_fix (export (fun x => x) []) [(1, (1, 0))]%N = ([], ImpCrash) /\
+  crdt_import (export (fun x => x) []) [(1, (1, 0))]%N = ([], ImpOk).
+Proof. split; reflexivity. Qed.
 
 (* non-vacuity of the guards *)
 Example pinset_example :
@@ -324,24 +327,23 @@ Proof. cbv zeta. split; [|split; [|split]].
   - vm_compute. reflexivity. Qed.
 
 (* export / import through a state manager (codes 1, 16, 17, 18). For every manager, retention, table, destination, datastore
-   order, stream (edited or not) and listing window, the model's own answers fail no monitor except in the shape of the two
-   listed findings (tag 1: origins-undecodable-import; tag 2: crdt-import-empty-panics) ... *)
+   order, stream (edited or not) and listing window, the model's own answers fail no monitor except in the shape of the
+   listed finding (code 17 with tag 1: origins-undecodable-import) ... *)
 Theorem export_model_only_known_findings id mgr keep t src dst0 ord lines edited w :
   order_oracle ord -> cid_sorted (pinset_of t src) ->
   let exported := ord (pinset_of t src) in
   (edited = false -> lines = map JPin exported) ->
   forall c, In c (check_case (export_model_case id mgr keep t src dst0 exported lines edited w)) ->
-    (snd (fst c) = 17 \/ snd (fst c) = 18)%N /\
-    (snd c = 1%N /\ is_S19 exported = true \/ snd c = 2%N /\ is_empty_crdt_import mgr lines = true).
+    snd (fst c) = 17%N /\ snd c = 1%N /\ is_S19 exported = true.
 Proof. exact (export_model_only_findings_l id mgr keep t src dst0 ord lines edited w). Qed.
 Print Assumptions export_model_only_known_findings.
 
-(* ... and outside them (no pin with origins; the crdt manager is not given an empty stream) no code at all *)
+(* ... and outside it (no pin with origins) no code at all, for every pinset (the empty one included) and both managers *)
 Theorem export_model_passes_monitor id mgr keep t src dst0 ord lines edited w :
   order_oracle ord -> cid_sorted (pinset_of t src) ->
   let exported := ord (pinset_of t src) in
   (edited = false -> lines = map JPin exported) ->
-  no_origins (pinset_of t src) -> (mgr <> 0%N -> lines <> []) ->
+  no_origins (pinset_of t src) ->
   check_case (export_model_case id mgr keep t src dst0 exported lines edited w) = [].
 Proof. exact (export_model_passes_monitor_l id mgr keep t src dst0 ord lines edited w). Qed.
 Print Assumptions export_model_passes_monitor.
@@ -363,8 +365,10 @@ Example export_monitor_example :
   (* raft, destination holding pinset 2: the import replaces it and keeps it as old.0 *)
   export_model_obs 0 2 t (Some 2%N) (map JPin (rev (pinset_of t 1))) 2 =
     (0, pinset_of t 1, [Some (0, Some 1); Some (7, Some 2); None])%N /\
-  (* the two finding shapes: the monitor fails with their tags on the model's own answers *)
+  (* the finding shape: the monitor fails with its tag on the model's own answer *)
   check_case (export_model_case 0 0 2 t 2 None (pinset_of t 2) (map JPin (pinset_of t 2)) false 1)%N = [(0, 17, 1)]%N /\
-  check_case (export_model_case 0 1 2 t 0 (Some 1%N) [] [] false 1)%N = [(0, 17, 2); (0, 18, 2)]%N.
-Proof. cbv zeta. split; [|split; [reflexivity|split; [|split]]]; try (vm_compute; reflexivity).
+  (* the empty pinset through the crdt manager into a populated destination: accepted; the crash it used to be is rejected *)
+  check_case (export_model_case 0 1 2 t 0 (Some 1%N) [] [] false 1)%N = [] /\
+  check_case (0, PExport 1 2 t 0 (Some 1%N) [] [] false 2 [] [])%N = [(0, 1, 0); (0, 17, 0); (0, 18, 0)]%N.
+Proof. cbv zeta. split; [|split; [reflexivity|split; [|split; [|split]]]]; try (vm_compute; reflexivity).
   change (pinset_of _ 1%N) with [(3, (1, 0)); (5, (2, 0))]%N. repeat constructor; unfold klt, ekey; simpl; lia. Qed.
